@@ -13,6 +13,11 @@ Property theorems only.
 * Part B (`resolve_hash_independent`, `append_hash_independent`): the repaired
   `TestCase.append_test_case_from` (crossover) is independent of the hash iteration order of every
   statement's `used_variables()`; `append_unsorted_cex`: the unrepaired loop is not (finding D25).
+* Part C (`render_sorted_hash_independent`, `render_hash_order_cex`): the text written for an
+  exact assertion on a value that contains sets (`assertion_to_ast._value_to_cst`) is independent of
+  the hash order iff the set elements are emitted in a canonical order.
+* Part D (`subseed_*`, `same_seed_same_files_aux_streams`): auxiliary PRNG streams must be seeded
+  from the configuration only, never from `hash(str)`.
 * `orderedset_*`: which uses of a hashed set as an *argument* of an `OrderedSet` operation are
   harmless (membership only) and which are not (`update`), on the C34 model.
 
@@ -195,6 +200,62 @@ example : appendFrom true cexSelf cexOther 2 cexOrders₁ [0, 1]
 
 example : (appendFrom true cexSelf cexOther 2 cexOrders₂ [0, 1]).toOption.map (·.tc.stmts.getLast?)
     = some (some { bound := none, ty := none, names := ["f", "var_0", "var_1"] }) := by decide
+
+/-! ## Part C — set values in exported assertions -/
+
+/-- The repaired renderer (`sortSets = true`): the text written for a value — whatever it nests:
+lists, tuples, dicts, sets — is the same under any two hash orders. -/
+theorem render_sorted_hash_independent {π₁ π₂ : List String → List String}
+    (h₁ : HashOrder π₁) (h₂ : HashOrder π₂) (v : PyVal) :
+    render true π₁ v = render true π₂ v :=
+  (render_sorted_eq h₁ h₂).1 v
+
+/-- The original renderer (`list(value)`): the set `{'a', 'b'}` is written as `{'a', 'b'}` under one
+hash order and as `{'b', 'a'}` under another. -/
+theorem render_hash_order_cex :
+    HashOrder (fun l : List String => l) ∧ HashOrder (List.reverse : List String → List String) ∧
+    render false (fun l => l) (.set [.atom "'a'", .atom "'b'"]) = "{'a', 'b'}" ∧
+    render false List.reverse (.set [.atom "'a'", .atom "'b'"]) = "{'b', 'a'}" := by
+  refine ⟨fun _ => List.Perm.refl _, fun l => List.reverse_perm l, by decide, by decide⟩
+
+/-- Non-vacuity: a nested value with two sets, rendered by the repaired renderer under reversal. -/
+example : render true List.reverse
+    (.dict [.atom "'k'"] [.tuple [.set [.atom "'b'", .atom "'a'"], .list [.set [.atom "2", .atom "1"]]]])
+    = "{'k': ({'a', 'b'}, [{1, 2}])}" := by decide
+
+example : render true (fun l => l) (.tuple [.set []]) = "(set(), )" := by decide
+
+/-! ## Part D — seeds of auxiliary streams -/
+
+/-- A stream seeded with the configured seed does not depend on the interpreter's string hash. -/
+theorem subseed_config_hash_independent (mix : Nat → Nat → Nat) (h₁ h₂ : String → Nat) (seed : Nat) :
+    subSeed mix h₁ seed .config = subSeed mix h₂ seed .config := rfl
+
+/-- Same seed, same configuration, same budget, auxiliary streams seeded from the configuration
+only, ordered collections at all choice points ⇒ identical files under any two string-hash
+functions and hash orders. -/
+theorem same_seed_same_files_aux_streams {σ α β} {le : α → α → Bool} (h : LinearLe le)
+    {π₁ π₂ : List α → List α} (hπ₁ : HashOrder π₁) (hπ₂ : HashOrder π₂)
+    (mix : Nat → Nat → Nat) (sh₁ sh₂ : String → Nat) (prng : Nat → Nat → Nat) (seed : Nat)
+    (prog : σ → Option (Step σ α)) (hp : OrderedOnly prog) (budget : Nat) (init : σ) (render : σ → β) :
+    render (run le π₁ (prng (subSeed mix sh₁ seed .config)) prog budget (init, 0)).1
+      = render (run le π₂ (prng (subSeed mix sh₂ seed .config)) prog budget (init, 0)).1 :=
+  same_seed_same_files h hπ₁ hπ₂ prng seed prog hp budget init render
+
+/-- A stream seeded with `hash((seed, name))`: as soon as the mixing function separates two hash
+values, two interpreters draw from differently seeded streams. -/
+theorem subseed_mixhash_diverges (mix : Nat → Nat → Nat) (seed a b : Nat) (hm : mix seed a ≠ mix seed b)
+    (name : String) :
+    ∃ h₁ h₂ : String → Nat, subSeed mix h₁ seed (.mixHash name) ≠ subSeed mix h₂ seed (.mixHash name) :=
+  ⟨fun _ => a, fun _ => b, hm⟩
+
+example : subSeed (· + ·) (fun _ => 1) 5 (.mixHash "AOR") ≠ subSeed (· + ·) (fun _ => 2) 5 (.mixHash "AOR") := by
+  decide
+
+/-- `_select_mutations` creates a sampling stream only when the cap bites, and seeds it with the
+configured seed. -/
+theorem samplingSeeds_spec (seed total : Nat) (cap : Int) :
+    samplingSeeds seed total cap = (if 0 ≤ cap ∧ cap < (total : Int) then [seed] else []) := rfl
 
 end PynguinModel.Repro
 
